@@ -397,7 +397,10 @@ def check(pid, tier, seed, workers, replay=None, runs_override=None):
     extra = getattr(prop, "coverage_extra", None)
     if extra:
         ev["coverage"].update(extra(tier))
-    if not os.environ.get("OPSIM_NO_EVIDENCE"):
+    if runs_override and not os.environ.get("OPSIM_FORCE_EVIDENCE"):
+        print(f"note: --runs {runs_override} is an ad-hoc batch size; evidence/{pid}.json is only written by the registered "
+              "quick/thorough commands")
+    elif not os.environ.get("OPSIM_NO_EVIDENCE"):
         os.makedirs(os.path.join(ROOT, "evidence"), exist_ok=True)
         with open(os.path.join(ROOT, "evidence", f"{pid}.json"), "w") as f:
             json.dump(ev, f, indent=1, sort_keys=True, default=str)
